@@ -22,3 +22,4 @@ void h_send_start(void) { sfd_tran_pipe *p; VP_HAVOC_GHOSTS(); sfd_tran_pipe_sen
 void h_send_cb(void)    { void *p; VP_HAVOC_GHOSTS(); sfd_tran_pipe_send_cb(p); VP_CANARY(); }
 void h_nego_cb(void)    { void *p; VP_HAVOC_GHOSTS(); sfd_tran_pipe_nego_cb(p); VP_CANARY(); }
 void h_pipe_peer(void)  { void *p; VP_HAVOC_GHOSTS(); sfd_tran_pipe_peer(p); VP_CANARY(); }
+void h_pipe_start(void) { sfd_tran_pipe *p; nng_stream *c; sfd_tran_ep *ep; VP_HAVOC_GHOSTS(); sfd_tran_pipe_start(p, c, ep); VP_CANARY(); }
